@@ -201,6 +201,27 @@ impl<'tcx> Cx<'tcx> {
             let t = tcx.type_of(im).instantiate_identity().skip_norm_wip();
             o.push(("implself", s(tystr(t))));
         }
+        // trait bounds of the callee instantiated with the call's generic arguments: the
+        // trait methods a (foreign) generic callee may call back into
+        {
+            let r = std::panic::catch_unwind(std::panic::AssertUnwindSafe(|| {
+                let mut v = vec![];
+                let preds = tcx.predicates_of(def_id).instantiate(tcx, args);
+                for c in preds.predicates {
+                    let c = c.skip_norm_wip();
+                    if let Some(tp) = c.as_trait_clause() {
+                        let tp = tp.skip_binder();
+                        v.push(J::Arr(vec![s(path(tcx, tp.def_id())), s(tystr(tp.self_ty()))]));
+                    }
+                }
+                v
+            }));
+            if let Ok(v) = r {
+                if !v.is_empty() {
+                    o.push(("preds", J::Arr(v)));
+                }
+            }
+        }
         // resolution
         let env = TypingEnv::post_analysis(tcx, owner);
         let res = std::panic::catch_unwind(std::panic::AssertUnwindSafe(|| {
